@@ -122,7 +122,7 @@ inductive CE
 
 def CE.render : CE → String
   | .leaf _ s _ => s
-  | .ilit n => toString n
+  | .ilit n => if n < 0 then "(" ++ toString n ++ ")" else toString n   -- `_signed_literal`
   | .blit b => if b then "true" else "false"
   | .bin op l r => "(" ++ l.render ++ op ++ r.render ++ ")"
   | .cast t e => "static_cast<" ++ t.name ++ ">(" ++ e.render ++ ")"
@@ -152,10 +152,10 @@ def emitBin (op : PyBin) (l r : Rep) : Except Refusal Rep :=
   | some txt => emitKnownBin op txt l r
   | none => if op = .pow then .ok ⟨.double, .pow l.ce r.ce⟩ else .error .runtime
 
-/-- `visit_UnaryOp` -/
+/-- `visit_UnaryOp`: `not x` is a `bool` whatever the operand is; `+x` and `-x` keep the operand's type -/
 def emitUn (op : PyUn) (e : Rep) : Except Refusal Rep :=
   match lookup unaryOps op.astName with
-  | some txt => .ok ⟨e.ty, .un txt e.ce⟩
+  | some txt => .ok ⟨if op = .not then .bool else e.ty, .un txt e.ce⟩
   | none => .error .runtime
 
 /-- `visit_Compare` (one operator) -/
